@@ -28,7 +28,7 @@ def run(ck):
     ck.distinct += s["texts"]
     ck.extra["pairs_equal_modulo_index"] = s["pairs_same"]
     ck.extra["pairs_differing"] = s["pairs_diff"]
-    j = props.judge(ck, "Trace_Rel", out)
+    j = props.judge(ck, "Trace_Rel", out, chunk=40000)
     ck.traces += j.judged
     if j.rejects:
         recs = read_ndjson(out)
